@@ -60,6 +60,12 @@ func (a *AndStrategy) Compute(snapshots <-chan *asset.Snapshot) <-chan Action {
 				result <- Hold
 			}
 		}
+
+		// The sources may differ in length. Consume what is left of the longer ones so
+		// that the sub-strategy pipelines feeding them can finish.
+		for _, source := range sources {
+			go helper.Drain(source)
+		}
 	}()
 
 	return result
